@@ -76,14 +76,18 @@ def oracle_sequential(spec, res):
             closed = True
     # a capture finishes asynchronously: between its start and its finish a framebuffer update must have been completed
     # (the reply to its request); a later command's bytes before that would be bytes sent before the capture finished
-    cur, seen_commit = None, False
+    cur, seen_commit, seen_save = None, False, False
     for now, t in tl:
         if t.startswith("start:"):
-            cur, seen_commit = int(t[6:]), False
+            cur, seen_commit, seen_save = int(t[6:]), False, False
         elif t.startswith("commit:"):
             seen_commit = True
+        elif t.startswith("save:"):
+            seen_save = True
         elif t.startswith("finish:"):
             i = int(t[7:])
+            if i < len(cmds) and cmds[i].split(":")[0] in ("captureScreen", "captureRegion") and seen_commit and not seen_save:
+                return "command %d (%s) finished before its image was written: the commands after it ran while the capture was still waiting" % (i, cmds[i].split(":")[0])
             if i < len(cmds) and cmds[i].split(":")[0] in ("captureScreen", "captureRegion") and not seen_commit:
                 return "command %d (%s) finished without any completed update after its request: the commands after it ran before the capture was done" % (i, cmds[i].split(":")[0])
             cur = None
@@ -147,6 +151,14 @@ def run(ctx):
     with Workdir():
         for si in range(n):
             spec = build_session(r)
+            if si % 5 == 4:
+                # the first completed update after a capture request carries a cursor shape only: the capture (and everything
+                # after it) has to wait for the next one
+                spec = build_session(r, kinds=["key", "capture", "key", "pause"], ncmd=r.randint(2, 4))
+                spec.words = ["capture", "first.png"] + spec.words
+                spec.nocursor = True
+                spec.first_update_cursor_only = True
+                ctx.count("sessions_first_update_cursor_only")
             if si % 5 == 2:
                 # several captures with --incremental-refreshes: from the second one on the client already holds a screen
                 spec = build_session(r, kinds=["capture", "capture", "key", "pause", "rcapture"], ncmd=r.randint(3, 6))
